@@ -108,34 +108,42 @@ Definition demo_final := run F2 (init_state F2) demo_acts.
 (* the state holds functions (per lane, per thread): facts about the final state are computed pointwise *)
 Definition at_final {A} (f : gst -> A) (d : A) : A := match demo_final with Some s => f s | None => d end.
 
+Lemma demo_final_some : exists s, demo_final = Some s.
+Proof.
+  assert (H : at_final (fun _ => true) false = true) by (vm_compute; reflexivity).
+  unfold at_final in H. destruct demo_final as [s|]; [exists s; reflexivity | discriminate].
+Qed.
+
+Lemma at_final_eq {A} (f : gst -> A) (d v : A) s : demo_final = Some s -> at_final f d = v -> f s = v.
+Proof. unfold at_final. intros ->. auto. Qed.
+
 Lemma demo_reach :
   exists s, demo_final = Some s /\ reach F2 s /\ quiescent s /\ rootq s 0 = 0 /\
             started s 1 = [1; 0] /\ nextid s 1 = 2 /\ started s 2 = [1; 0] /\ nextid s 2 = 2 /\
             lst s 0 = [] /\ lst s 1 = [] /\ lst s 2 = [] /\ token s 0 = None.
 Proof.
-  assert (Some_ : at_final (fun _ => true) false = true) by (vm_compute; reflexivity).
-  assert (K5 : at_final (fun s => stk s 5) [(0, PW_lock 0)] = []) by (vm_compute; reflexivity).
-  assert (K6 : at_final (fun s => stk s 6) [(0, PW_lock 0)] = []) by (vm_compute; reflexivity).
-  assert (K7 : at_final (fun s => stk s 7) [(0, PW_lock 0)] = []) by (vm_compute; reflexivity).
-  assert (K8 : at_final (fun s => stk s 8) [(0, PW_lock 0)] = []) by (vm_compute; reflexivity).
-  assert (K9 : at_final (fun s => stk s 9) [(0, PW_lock 0)] = []) by (vm_compute; reflexivity).
-  assert (P1 : at_final (fun s => (rootq s 0, started s 1, nextid s 1, started s 2, nextid s 2)) (1, [], 0, [], 0) = (0, [1; 0], 2, [1; 0], 2))
-    by (vm_compute; reflexivity).
-  assert (P2 : at_final (fun s => (lst s 0, lst s 1, lst s 2, token s 0)) ([], [], [], Some None) = ([], [], [], None))
-    by (vm_compute; reflexivity).
-  unfold at_final in *. destruct demo_final as [s|] eqn:E; [|discriminate].
-  exists s. split; [reflexivity|]. split.
-  - unfold demo_final in E. apply (run_reach F2 demo_acts (init_state F2) s); [apply reach_init; reflexivity | vm_compute; reflexivity | exact E].
+  destruct demo_final_some as [s E]. exists s. split; [exact E|].
+  assert (K : forall t, In t [5; 6; 7; 8; 9] -> stk s t = []).
+  { intros t [<-|[<-|[<-|[<-|[<-|[]]]]]]; apply (at_final_eq (fun s => stk s _) [(0, PW_lock 0)] [] s E); vm_compute; reflexivity. }
+  pose proof (at_final_eq (fun s => (rootq s 0, started s 1, nextid s 1, started s 2, nextid s 2)) (1, [], 0, [], 0)
+                (0, [1; 0], 2, [1; 0], 2) s E) as P1.
+  pose proof (at_final_eq (fun s => (lst s 0, lst s 1, lst s 2, token s 0)) ([], [], [], Some None) ([], [], [], None) s E) as P2.
+  cbv beta in P1, P2.
+  assert (E' : run F2 (init_state F2) demo_acts = Some s) by exact E.
+  split.
+  - apply (run_reach F2 demo_acts (init_state F2) s); [apply reach_init; reflexivity | vm_compute; reflexivity | exact E'].
   - split.
     + intros t.
-      destruct (Z.eq_dec t 5) as [->|N5]; [exact K5|].
-      destruct (Z.eq_dec t 6) as [->|N6]; [exact K6|].
-      destruct (Z.eq_dec t 7) as [->|N7]; [exact K7|].
-      destruct (Z.eq_dec t 8) as [->|N8]; [exact K8|].
-      destruct (Z.eq_dec t 9) as [->|N9]; [exact K9|].
-      unfold demo_final in E. rewrite (run_frame F2 demo_acts t (init_state F2) s E); [reflexivity|].
+      destruct (Z.eq_dec t 5) as [->|N5]; [apply K; cbn; tauto|].
+      destruct (Z.eq_dec t 6) as [->|N6]; [apply K; cbn; tauto|].
+      destruct (Z.eq_dec t 7) as [->|N7]; [apply K; cbn; tauto|].
+      destruct (Z.eq_dec t 8) as [->|N8]; [apply K; cbn; tauto|].
+      destruct (Z.eq_dec t 9) as [->|N9]; [apply K; cbn; tauto|].
+      rewrite (run_frame F2 demo_acts t (init_state F2) s E'); [reflexivity|].
       unfold demo_acts, S, So. cbn [forallb act_tid].
       apply Z.eqb_neq in N5, N6, N7, N8, N9.
       rewrite (Z.eqb_sym 5 t), (Z.eqb_sym 6 t), (Z.eqb_sym 7 t), (Z.eqb_sym 8 t), (Z.eqb_sym 9 t), N5, N6, N7, N8, N9. reflexivity.
-    + injection P1 as -> -> -> -> ->. injection P2 as -> -> -> ->. repeat split.
+    + assert (Q1 : (rootq s 0, started s 1, nextid s 1, started s 2, nextid s 2) = (0, [1; 0], 2, [1; 0], 2)) by (apply P1; vm_compute; reflexivity).
+      assert (Q2 : (lst s 0, lst s 1, lst s 2, token s 0) = ([], [], [], None)) by (apply P2; vm_compute; reflexivity).
+      injection Q1 as -> -> -> -> ->. injection Q2 as -> -> -> ->. repeat split.
 Qed.
